@@ -43,7 +43,7 @@ MANIFEST = dict(
          'refuted by a computed history). '
          'translate/c12_atomic.py transliterates __exit__ statement by statement (fail-closed) and reads the facts of '
          'make_tempfile and BSP.save (helper methods of the class and single-assignment locals are inlined first, '
-         'keyword and positional arguments are the same call); the kernel computes the decision trees and 32 named obligations (order of close / '
+         'keyword and positional arguments are the same call); the kernel computes the decision trees and 37 named obligations (order of close / '
          'rename / unlink, no rename after a failing close or a body exception, every failure path unlinks, no exception '
          'swallowed, loop shape, only AtomicWriter output in BSP.save). The real AtomicWriter and BSP.save (existing and '
          'fresh destination, raising body, raising rebuild phase) are run under file-system interposition with a kill '
@@ -76,7 +76,21 @@ MANIFEST = dict(
          'with prunt aw_proto (SM/AtomicProduct.v): c12_product_isolated proves, for every history of uses of A and every '
          'interleaving with B, that B\'s destination is old or complete new, that A and B never hold the same temp name, '
          'that the temp file B holds keeps exactly what B has written, and that nothing else changes (the round-1 '
-         'invariant, re-based at A\'s destination, survives the restart of A).',
+         'invariant, re-based at A\'s destination, survives the restart of A). '
+         'Round 5 (SM/AtomicAbandon.v): a use may be ABANDONED without __exit__ (entered by hand, a generator never '
+         'resumed): the object then still holds an open handle and its temp file when it is entered again. The generated '
+         'prologue of make_tempfile is judged in every attribute state WITH a handle as well: reentry_ok (its decision tree '
+         'is close the handle, unlink the file by name, only then go on to mkdir and the temp-name loop; a failing close '
+         'fails the entry) and reentry_forgets (whenever the entry fails the handle is forgotten, so no later entry comes '
+         'back to the stale name). c12_reentry_after_abandoned_use: for every such tree, every directory and every pattern of '
+         'refused operations in the prologue and the following use, nothing but the held temp file changes in the prologue '
+         'and the use that follows is a good single use — the destination is old or the complete new content of THIS use. A '
+         'prologue that keeps a handle that is still open and returns (seeded c12_8: truncate(0) without seek) has the tree '
+         'XBad: refuted. `<handle>.closed` is translated twice (open / closed handle), truncate / seek / flush of the handle '
+         'are directory-neutral statements. Executed: reuse histories over S, B and A (entered, one or two chunks written, '
+         'never exited; bytes, utf8, utf16, buffer 1 / small / 8192, stale temps), fault-free, one OSError at every '
+         'operation, exception classes, kills; the committed bytes are compared exactly, the first operations of the entry '
+         'after an A must be close + unlink of the held temp file.',
     note='Trusted: Coq kernel + vm_compute, translate/c12_atomic.py (transliteration only: the symbolic execution is in '
          'the kernel; both are tied by the executed correspondences, the CPython one by sampling), the interposer in checks/c12.py (FileIO subclass + patched '
          'io.open/os.*), POSIX rename atomicity and O_EXCL (modelled, not verified), page cache surviving a process kill '
@@ -88,8 +102,12 @@ MANIFEST = dict(
          'TextIOWrapper, Path.mkdir internals and BSP lump serialisation are only exercised, not modelled. Reuse: the '
          'object facts (_object_facts in the translator) are read, not proved; they are tied by the executed attribute '
          'correspondence. Attribute values outside None/True/False/handle/temp name/destination/exception are "unknown" '
-         '(reading one is outside the model: obligation exit_no_unmodelled_step). make_tempfile called while a temp file '
-         'is open (nested entry: "not reentrant") is not covered. Run classes: all refused operations of one run raise '
+         '(reading one is outside the model: obligation exit_no_unmodelled_step). Entering an object that still holds a '
+         'temp file: the prologue is a generated program with obligations and a theorem about its tree on the directory; the '
+         'histories with abandoned uses are judged by the oracle only (corr_hist models complete uses), `<handle>.closed` is '
+         'a translation-time case split, not a value of the model, and what truncate does to the stream position is outside '
+         'the token model (the shape obligation forbids keeping the file instead). Two writers ENTERED on one object at the '
+         'same time ("not reentrant") is not covered. Run classes: all refused operations of one run raise '
          'the same class (mixed classes in one run are not modelled; when no handler names a subclass the trees are equal '
          'for all classes and the restriction is void). InterruptedError / BlockingIOError are not injected into raw writes '
          '(io.BufferedWriter gives them a meaning of its own); a persistent FileExistsError at open is not injected (the '
@@ -1615,7 +1633,8 @@ def history_campaign(ck: Ck, do_model: bool) -> None:
             judge(r, o['k'], f'OSError at operation {o["k"]} ({op_label(o)}) of the history')
         # ---- round 4: an exception of a named class / KeyboardInterrupt, persistently, at every operation that is no raw
         # write (the same operation of the later uses is refused as well: a failed use follows a failed use)
-        if nuse >= 2 and (hi % 4 == 0 or ck.thorough):
+        leaves_open = any(u.get('abandon') for u in hs['uses'])
+        if nuse >= 2 and (hi % 4 == 0 or (ck.thorough and (hi % 2 == 0 or not leaves_open))):
             for o in ops0:
                 if not o['inj'] or o['op'] == 'write':
                     continue
@@ -2924,8 +2943,10 @@ def run(ck: Ck) -> None:
                'one with a shared destination) are run under EVERY interleaving (DFS over schedules) or at every pair of '
                'operation boundaries (A^k1 B^k2 and B^k2 A^k1), and with one OSError at every operation of 3-6 schedules. '
                'Reuse histories: ONE AtomicWriter object, one with-block per letter of a word over S (body returns) / B (body '
-               'raises after some writes) — S, B, SS, SB, BS, BB, SSB, BSB, SBS, SBB (+ longer and random words when '
-               'escalated), bytes/text, buffer sizes, stale temps, missing destination — run fault-free, with one OSError at '
+               'raises after some writes) / A (round 5: __enter__ by hand, one or two chunks written, NO __exit__: the handle '
+               'stays open) — S, B, SS, SB, BS, BB, SSB, BSB, SBS, SBB, AS (bytes buffer 1 / 8192, utf8 text), SAS (utf16), '
+               'AAS (stale temp), ABS (+ longer and random words when escalated), bytes/text, buffer sizes, stale temps, '
+               'missing destination — run fault-free, with one OSError at '
                'EVERY injectable operation of the whole history, and killed before every operation of the later uses; every '
                'use is judged relative to the directory it started in, and the instance attributes of the object are '
                'snapshotted after __init__, inside every body and after every __exit__. '
@@ -3033,6 +3054,10 @@ def run(ck: Ck) -> None:
             # ... and when that entry fails, the handle is forgotten: no later entry comes back to the stale NAME
             'reuse_failed_entry_forgets_the_temp_handle':
                 'reentry_forgets aw_obj aw_entry_prog && reentry_forgets aw_obj aw_entry_prog_closed',
+            # literally the hypotheses of c12_property_of_generated_object, for today's generated objects
+            'c12_property_of_generated_object_hypotheses':
+                'all_classes aw_nclasses aw_obj (fun o => retry_ok (obj_proto o) && proto_outcome_ok (obj_proto o) && '
+                'reuse_indep o) && reentry_ok aw_obj aw_entry_prog',
             'reuse_fresh_object_is_unentered': 'init_unentered aw_obj',
             'reuse_enter_binds_handle_and_temp_name': 'enter_binds aw_obj',
             'temp_is_sibling_of_destination': 'aw_tmp_sibling',
